@@ -459,3 +459,169 @@ def mtf_case_history(cid, rng, nv=None, length=60, slots=20, cache=None, reorder
             ops.append("ORDER " + " ".join(map(str, vs[: rng.randrange(2, nv + 1)])))
     ops += ["DROPALL", "GC", "SNAP"]
     return (header(cid, "mtbddf", cap=1 << 14, cache=cache, threads=threads, snap_each=True), ops)
+
+
+# ---------------------------------------------------------------------------
+# TDD (three-valued; harness kind "tdd", ops T3*) -- package TDDx
+# ---------------------------------------------------------------------------
+T3_BIN_OPS = ["T3AND", "T3OR", "T3NAND", "T3NOR", "T3XOR", "T3EQUIV", "T3IMP", "T3IMPS"]
+
+
+def tdd_case_history(cid, rng, nv=None, length=60, slots=20, cache=None, cap=1 << 14, threads=1, reorder=True, gc=True,
+                     addvars=True, snap_each=True, extra=""):
+    """random TDD history (constants, variables, not, the 8 connectives, ite, cofactors, clone/drop, gc, add_vars,
+    set_var_order, ==, node_count, eval over all 3^n assignments) with a snapshot after every op and a final
+    DROPALL / GC / SNAP; at most 5 variables (value tables have 3^n entries)"""
+    nv = nv or rng.randrange(1, 5)
+    cache = cache if cache is not None else rng.choice([1, 2, 16, 1 << 10])
+    ops = [f"VARS {nv}"]
+    live = set()
+
+    def pick():
+        return rng.choice(sorted(live))
+
+    for _ in range(length):
+        r = rng.random()
+        d = rng.randrange(slots)
+        if len(live) < 3 or r < 0.10:
+            if rng.random() < 0.3:
+                ops.append(f"T3CONST h{d} {rng.choice('fut')}")
+            else:
+                ops.append(f"T3VAR h{d} {rng.randrange(nv)}")
+            live.add(d)
+        elif r < 0.48:
+            a, b = pick(), pick()
+            # different connectives on the same operands back to back (also with swapped operands)
+            for o in rng.sample(T3_BIN_OPS, rng.randrange(1, 4)):
+                dd = rng.randrange(slots)
+                x, y = (b, a) if rng.random() < 0.25 else (a, b)
+                ops.append(f"{o} h{dd} h{x} h{y}")
+                live.add(dd)
+                if dd in (a, b):
+                    break
+        elif r < 0.58:
+            f, g, h = pick(), pick(), pick()
+            if rng.random() < 0.2:
+                f, g, h = rng.choice([(f, f, h), (f, g, f), (f, g, g)])
+            ops.append(f"T3ITE h{d} h{f} h{g} h{h}")
+            live.add(d)
+        elif r < 0.63:
+            ops.append(f"T3NOT h{d} h{pick()}")
+            live.add(d)
+        elif r < 0.66:
+            ds = rng.sample(range(slots), 3)
+            a = pick()
+            ops.append(f"T3COF h{ds[0]} h{ds[1]} h{ds[2]} h{a}")
+            # (no handle is assigned when the operand is a terminal: the slots keep what they had)
+        elif r < 0.70:
+            ops.append(f"CLONE h{d} h{pick()}")
+            live.add(d)
+        elif r < 0.78:
+            a = pick()
+            ops.append(f"{rng.choice(['DROP', 'DROP', 'DROPT'])} h{a}")
+            live.discard(a)
+        elif r < 0.83 and gc:
+            ops.append("GC")
+        elif r < 0.85 and addvars and nv < 5:
+            ops.append("VARS 1")
+            nv += 1
+        elif r < 0.90 and reorder and nv >= 2:
+            vs = list(range(nv)); rng.shuffle(vs)
+            ops.append(f"{rng.choice(['ORDER', 'ORDERSEQ'])} " + " ".join(map(str, vs[: rng.randrange(2, nv + 1)])))
+        elif r < 0.94:
+            ops.append(f"EQ h{pick()} h{pick()}")
+        elif r < 0.97:
+            ops.append(f"NC h{pick()}")
+        else:
+            ops.append(f"T3EVAL h{pick()}")
+    ops += ["DROPALL", "GC", "SNAP"]
+    return (header(cid, "tdd", cap=cap, cache=cache, threads=threads, snap_each=snap_each, extra=extra), ops)
+
+
+def t3fill_op(cap):
+    """the TDD capacity probe sized for a store of `cap` nodes (harness op T3FILL <k>: base of k two-valued
+    functions; the probe then creates up to 10 k single nodes): effective when base < cap <= base + 10 k"""
+    for k, top in ((1, 22), (2, 42), (3, 56), (5, 88), (8, 136)):
+        if cap <= top:
+            return f"T3FILL {k}"
+    return "T3FILL 14"
+
+
+def tdd_case_identities(cid, rng, nv=3, npool=10, nident=40, cache=None, threads=1, reorder=True):
+    """canonicity across construction routes: a pool of functions built from variables and constants by random
+    connectives; then, for sampled operands, a connective and a second derivation of the same function by an
+    identity that holds by definition of the fixed tables (nand = not and, nor = not or, xor = not equiv,
+    imp_strict(a, b) = not imp(b, a), De Morgan for and / or, commutativity, ite(f, g, g) = g, ite(t, g, h) = g,
+    ite(f-const, g, h) = h, double negation); EQ of the two results (and of sampled cross pairs); reorderings
+    and collections in between"""
+    cache = cache if cache is not None else rng.choice([1, 2, 16, 1 << 10])
+    ops = [f"VARS {nv}"]
+    pool = []
+    for v in range(nv):
+        ops.append(f"T3VAR h{len(pool)} {v}"); pool.append(len(pool))
+    for c in "fut":
+        ops.append(f"T3CONST h{len(pool)} {c}"); pool.append(len(pool))
+    cf, cu, ct = pool[nv], pool[nv + 1], pool[nv + 2]
+    while len(pool) < nv + 3 + npool:
+        d = len(pool)
+        r = rng.random()
+        if r < 0.7:
+            ops.append(f"{rng.choice(T3_BIN_OPS)} h{d} h{rng.choice(pool)} h{rng.choice(pool)}")
+        elif r < 0.85:
+            ops.append(f"T3ITE h{d} h{rng.choice(pool)} h{rng.choice(pool)} h{rng.choice(pool)}")
+        else:
+            ops.append(f"T3NOT h{d} h{rng.choice(pool)}")
+        pool.append(d)
+    ops.append("SNAP")
+    k = 1000
+    res = []
+    for i in range(nident):
+        a, b, c = rng.choice(pool), rng.choice(pool), rng.choice(pool)
+        r1, r2, t1, t2 = k, k + 1, k + 2, k + 3
+        k += 4
+        which = rng.randrange(12)
+        if which == 0:
+            ops += [f"T3NAND h{r1} h{a} h{b}", f"T3AND h{t1} h{a} h{b}", f"T3NOT h{r2} h{t1}"]
+        elif which == 1:
+            ops += [f"T3NOR h{r1} h{a} h{b}", f"T3OR h{t1} h{b} h{a}", f"T3NOT h{r2} h{t1}"]
+        elif which == 2:
+            ops += [f"T3XOR h{r1} h{a} h{b}", f"T3EQUIV h{t1} h{a} h{b}", f"T3NOT h{r2} h{t1}"]
+        elif which == 3:
+            ops += [f"T3IMPS h{r1} h{a} h{b}", f"T3IMP h{t1} h{b} h{a}", f"T3NOT h{r2} h{t1}"]
+        elif which == 4:
+            ops += [f"T3AND h{r1} h{a} h{b}", f"T3NOT h{t1} h{a}", f"T3NOT h{t2} h{b}", f"T3NOR h{r2} h{t1} h{t2}"]
+        elif which == 5:
+            ops += [f"T3OR h{r1} h{a} h{b}", f"T3NOT h{t1} h{a}", f"T3NOT h{t2} h{b}", f"T3NAND h{r2} h{t2} h{t1}"]
+        elif which == 6:
+            o = rng.choice(["T3AND", "T3OR", "T3XOR", "T3EQUIV", "T3NAND", "T3NOR"])
+            ops += [f"{o} h{r1} h{a} h{b}", f"{o} h{r2} h{b} h{a}"]
+        elif which == 7:
+            ops += [f"T3ITE h{r1} h{a} h{b} h{b}", f"CLONE h{r2} h{b}"]
+        elif which == 8:
+            ops += [f"T3ITE h{r1} h{ct} h{b} h{c}", f"CLONE h{r2} h{b}"]
+        elif which == 9:
+            ops += [f"T3ITE h{r1} h{cf} h{b} h{c}", f"CLONE h{r2} h{c}"]
+        elif which == 10:
+            ops += [f"T3NOT h{t1} h{a}", f"T3NOT h{r1} h{t1}", f"CLONE h{r2} h{a}"]
+        else:
+            # contraposition of Lukasiewicz's implication
+            ops += [f"T3IMP h{r1} h{a} h{b}", f"T3NOT h{t1} h{a}", f"T3NOT h{t2} h{b}", f"T3IMP h{r2} h{t2} h{t1}"]
+        ops.append(f"EQ h{r1} h{r2}")
+        res += [r1, r2]
+        if i % 8 == 7:
+            for _ in range(6):
+                ops.append(f"EQ h{rng.choice(res + pool)} h{rng.choice(res + pool)}")
+            ops.append("SNAP")
+            ev = rng.random()
+            if ev < 0.4 and reorder and nv >= 2:
+                vs = list(range(nv)); rng.shuffle(vs)
+                ops.append("ORDER " + " ".join(map(str, vs)))
+            elif ev < 0.8:
+                for x in rng.sample(res, len(res) // 2):
+                    ops.append(f"DROP h{x}"); res.remove(x)
+                ops.append("GC")
+            ops.append("SNAP")
+    for _ in range(20):
+        ops.append(f"EQ h{rng.choice(res + pool)} h{rng.choice(res + pool)}")
+    ops += ["SNAP", "DROPALL", "GC", "SNAP"]
+    return (header(cid, "tdd", cache=cache, threads=threads), ops)
